@@ -131,11 +131,38 @@ func Leaked() []string {
 	}
 	var out []string
 	for _, g := range strings.Split(string(buf), "\n\n") {
+		// only goroutines of a bubble: workloads of the live engine run in the same worker process in real
+		// time, and their transports may still be winding down when the next (bubble) case scans the stacks
+		head, _, _ := strings.Cut(g, "\n")
+		if !strings.Contains(head, "synctest bubble") {
+			continue
+		}
 		if nexusFrame.MatchString(g) {
 			out = append(out, g)
 		}
 	}
 	return out
+}
+
+// LiveNexusGoroutines counts goroutines outside any bubble that have nexus frames (live engine housekeeping).
+func LiveNexusGoroutines() int {
+	buf := make([]byte, 1<<20)
+	for {
+		n := runtime.Stack(buf, true)
+		if n < len(buf) {
+			buf = buf[:n]
+			break
+		}
+		buf = make([]byte, 2*len(buf))
+	}
+	n := 0
+	for _, g := range strings.Split(string(buf), "\n\n") {
+		head, _, _ := strings.Cut(g, "\n")
+		if !strings.Contains(head, "synctest bubble") && nexusFrame.MatchString(g) {
+			n++
+		}
+	}
+	return n
 }
 
 // MarkClosed tells Teardown that Router.Close has already been attempted (it
